@@ -30,10 +30,10 @@ type retryFacts struct {
 	DirectExecute        int      `json:"directExecuteElsewhere"`
 }
 
-func noSpace(s string) string { return strings.Join(strings.Fields(s), "") }
+func rxNoSpace(s string) string { return strings.Join(strings.Fields(s), "") }
 
-// isLoggerCall: sched.logger.X(...)
-func isLoggerCall(e ast.Expr) bool {
+// rxIsLoggerCall: sched.logger.X(...)
+func rxIsLoggerCall(e ast.Expr) bool {
 	c, ok := e.(*ast.CallExpr)
 	if !ok {
 		return false
@@ -46,17 +46,17 @@ func isLoggerCall(e ast.Expr) bool {
 	return ok && in.Sel.Name == "logger"
 }
 
-func lastSel(e ast.Expr) string {
+func rxLastSel(e ast.Expr) string {
 	switch v := e.(type) {
 	case *ast.SelectorExpr:
 		return v.Sel.Name
 	case *ast.Ident:
 		return v.Name
 	}
-	return noSpace(types.ExprString(e))
+	return rxNoSpace(types.ExprString(e))
 }
 
-func containsRecover(n ast.Node) bool {
+func rxContainsRecover(n ast.Node) bool {
 	found := false
 	ast.Inspect(n, func(x ast.Node) bool {
 		if c, ok := x.(*ast.CallExpr); ok {
@@ -77,28 +77,28 @@ func retryCanon(list []ast.Stmt, loopLabel string) []string {
 	for _, s := range list {
 		switch v := s.(type) {
 		case *ast.DeferStmt:
-			if fl, ok := v.Call.Fun.(*ast.FuncLit); ok && containsRecover(fl.Body) {
+			if fl, ok := v.Call.Fun.(*ast.FuncLit); ok && rxContainsRecover(fl.Body) {
 				out = append(out, "defer-recover")
 			} else {
-				out = append(out, "defer:"+noSpace(types.ExprString(v.Call)))
+				out = append(out, "defer:"+rxNoSpace(types.ExprString(v.Call)))
 			}
 		case *ast.AssignStmt:
 			var lhs []string
 			for _, l := range v.Lhs {
-				lhs = append(lhs, noSpace(types.ExprString(l)))
+				lhs = append(lhs, rxNoSpace(types.ExprString(l)))
 			}
 			rhs := "?"
 			if len(v.Rhs) == 1 {
-				rhs = noSpace(types.ExprString(v.Rhs[0]))
+				rhs = rxNoSpace(types.ExprString(v.Rhs[0]))
 				if c, ok := v.Rhs[0].(*ast.CallExpr); ok {
 					switch callName(c) {
 					case "Execute":
-						if sel, ok := c.Fun.(*ast.SelectorExpr); ok && lastSel(sel.X) == "job" && len(c.Args) == 1 {
+						if sel, ok := c.Fun.(*ast.SelectorExpr); ok && rxLastSel(sel.X) == "job" && len(c.Args) == 1 {
 							rhs = "Execute"
 						}
 					case "NewTimer":
 						if len(c.Args) == 1 {
-							rhs = "NewTimer(" + lastSel(c.Args[0]) + ")"
+							rhs = "NewTimer(" + rxLastSel(c.Args[0]) + ")"
 						}
 					}
 				}
@@ -109,7 +109,7 @@ func retryCanon(list []ast.Stmt, loopLabel string) []string {
 			if v.Init == nil && v.Else == nil && len(body) == 0 {
 				continue // logging only
 			}
-			s := "if " + noSpace(types.ExprString(v.Cond)) + " " + strings.Join(body, ";")
+			s := "if " + rxNoSpace(types.ExprString(v.Cond)) + " " + strings.Join(body, ";")
 			if v.Init != nil {
 				s = "if-init " + s
 			}
@@ -118,13 +118,13 @@ func retryCanon(list []ast.Stmt, loopLabel string) []string {
 			}
 			out = append(out, s)
 		case *ast.ExprStmt:
-			if isLoggerCall(v.X) {
+			if rxIsLoggerCall(v.X) {
 				continue
 			}
 			if c, ok := v.X.(*ast.CallExpr); ok && len(c.Args) == 0 {
-				out = append(out, noSpace(types.ExprString(c.Fun)))
+				out = append(out, rxNoSpace(types.ExprString(c.Fun)))
 			} else {
-				out = append(out, noSpace(types.ExprString(v.X)))
+				out = append(out, rxNoSpace(types.ExprString(v.X)))
 			}
 		case *ast.ReturnStmt:
 			if len(v.Results) == 0 {
@@ -213,9 +213,9 @@ func extractRetry(repo string, fx *Facts) {
 	rf.LoopCond = "?"
 	if be, ok := loop.Cond.(*ast.BinaryExpr); ok {
 		if id, ok := be.X.(*ast.Ident); ok && id.Name == loopVar {
-			rf.LoopCond = "i" + be.Op.String() + lastSel(be.Y)
+			rf.LoopCond = "i" + be.Op.String() + rxLastSel(be.Y)
 		} else {
-			rf.LoopCond = noSpace(types.ExprString(loop.Cond))
+			rf.LoopCond = rxNoSpace(types.ExprString(loop.Cond))
 		}
 	} else {
 		fx.miss("retry.loopCond")
@@ -242,7 +242,7 @@ func extractRetry(repo string, fx *Facts) {
 			head := "default"
 			if cl.Comm != nil {
 				if es, ok := cl.Comm.(*ast.ExprStmt); ok {
-					head = noSpace(types.ExprString(es.X))
+					head = rxNoSpace(types.ExprString(es.X))
 				} else {
 					head = fmt.Sprintf("?%T", cl.Comm)
 				}
@@ -274,7 +274,7 @@ func extractRetry(repo string, fx *Facts) {
 				case "executeWithRetries":
 					sites = append(sites, site{c.Pos(), fn.Name.Name})
 				case "Execute":
-					if sel, ok := c.Fun.(*ast.SelectorExpr); ok && lastSel(sel.X) == "job" && fn.Name.Name != "executeWithRetries" {
+					if sel, ok := c.Fun.(*ast.SelectorExpr); ok && rxLastSel(sel.X) == "job" && fn.Name.Name != "executeWithRetries" {
 						rf.DirectExecute++
 					}
 				}
@@ -282,7 +282,9 @@ func extractRetry(repo string, fx *Facts) {
 			})
 		}
 	}
-	sort.Slice(sites, func(i, j int) bool { return sites[i].name < sites[j].name || (sites[i].name == sites[j].name && sites[i].pos < sites[j].pos) })
+	sort.Slice(sites, func(i, j int) bool {
+		return sites[i].name < sites[j].name || (sites[i].name == sites[j].name && sites[i].pos < sites[j].pos)
+	})
 	for _, s := range sites {
 		rf.CallSites = append(rf.CallSites, s.name)
 	}
